@@ -9,7 +9,7 @@ from . import common as C
 
 CTORS = ["new", "key3", "key4", "unenc"]
 FILES = ["missing", "empty", "small", "plain", "enc3", "garbage", "special"]
-RINGS = ["none", "k3", "k4", "bad", "noaccess", "fail", "nostore"]
+RINGS = ["none", "k3", "k4", "bad", "noaccess", "fail", "nostore", "rdk3", "rdnk3", "rdk4"]
 DIRS = ["absent", "pre755", "pre700"]
 
 # ---- cases ------------------------------------------------------------------------------------
@@ -40,7 +40,7 @@ def gen_history(rng, i):
             ops.append("file " + (f"enc{kk()}" if f == "enc3" else f))
         elif x < 0.40:
             r = rng.choice(RINGS + ["none", "none"])
-            ops.append("ring " + (f"k{kk()}" if r in ("k3", "k4") else r))
+            ops.append("ring " + (f"k{kk()}" if r in ("k3", "k4") else f"rdk{kk()}" if r in ("rdk3", "rdk4") else f"rdnk{kk()}" if r == "rdnk3" else r))
         elif x < 0.88:
             c = rng.choice(["new", "new", "new", "key", "key", "unenc"])
             ops.append("open " + (f"key{kk()}" if c == "key" else c))
@@ -377,6 +377,10 @@ def oracle(cases):
                 tampered = True
                 ring = field(out, "ring") or ring
             elif t[0] in ("getkey", "getorcreate"):
+                m_rd = re.fullmatch(r"rdn?(k\d+)", ring or "")
+                if m_rd and (field(out, "ring") or ring) != ring:
+                    fail(c, k, "unreadable-key-replaced", f"the keyring held {m_rd.group(1)} but could not hand it out ({ring}); `{t[0]}` left the keyring as "
+                         f"{field(out, 'ring')}: the stored key was taken for missing and overwritten")
                 ring = field(out, "ring") or ring
             elif t[0] == "open":
                 stats["opens"] += 1
@@ -436,6 +440,16 @@ def oracle(cases):
                         if key != last_new_key or fresh != "-":
                             fail(c, k, "key-not-reused", f"`new` used {key} (fresh={fresh}) after {last_new_key}")
                     last_new_key, tampered = key, False
+                # (4b) … also when the keyring cannot hand the stored key out: a read ERROR is not "no key" — nothing is generated,
+                # nothing stored, the entry is still the old one afterwards
+                m_rd = re.fullmatch(r"rdn?(k\d+)", ring or "")
+                if m_rd:
+                    stats["opens_with_unreadable_key"] = stats.get("opens_with_unreadable_key", 0) + 1
+                    if ring_after != ring or (ctor == "new" and (ok or fresh != "-")):
+                        fail(c, k, "unreadable-key-replaced", f"the keyring held {m_rd.group(1)} but could not hand it out ({ring}); `{ctor}` answered "
+                             f"{out.split()[0]} (fresh={fresh}) and the keyring now says {ring_after}: the stored key was taken for missing and overwritten")
+                if ring_after:
+                    ring = ring_after
                 if ctor == "new" and (not ok) and fk == "missing" and ak == "empty":
                     stats["stuck_after_failed_first_open"] += 1
                 file_st = after if after is not None else file_st
